@@ -64,6 +64,8 @@ def _new_recipe(rng, known_shapes):
         "dtype": rng.choice(["float64", "float64", "float64", "float32"]),
         "data": {"kind": rng.choice(["int_bumps", "int_bumps", "peaked", "random"]), "seed": rng.randrange(10**6), "zero_at": -1, "nan_at": -1},
         "spec_last": rng.random() < 0.85,
+        "dir_first": rng.random() < 0.1,
+        "std_attrs": rng.random() < 0.4,
         "lon0": rng.choice([150.0, 150.0, 170.0, 350.0, -20.0]),
     }
 
@@ -106,10 +108,15 @@ def _gen_call(rng, meta, force_sel=None):
         if rng.random() < 0.5:
             kw.update(rng.choice([{"as_period": True}, {"normalised": False}, {"logradius": False}, {"rmax": 0.3}]))
         return {"m": "plot", "via": rng.choice(["da", "ds"]) if meta["kind"] == "ds" else "da", "kw": kw}
+    others = [s for s, m in (meta.get("all") or {}).items() if m.get("kind") in ("ds", "da") and m["recipe"].get("nd", 0) >= 2 and m is not meta]
+    if others and recipe.get("nd", 0) >= 2 and rng.random() < 0.12:
+        return {"m": "interp_like", "via": "da" if meta["kind"] == "da" else rng.choice(["da", "ds"]), "other": rng.choice(others), "kw": {"maintain_m0": rng.random() < 0.7}}
     pool = rng.choices(["stats", "partition", "transform", "fit", "all"], [6, 5, 2, 1, 1])[0]
     op = O.gen_op(rng, recipe, pool)
     if meta["kind"] == "da":
         op["via"] = "da"
+    if op["m"] == "interp" and rng.random() < 0.5:
+        op["as_da"] = True   # new basis given as coordinate DataArrays (caller-owned objects)
     return op
 
 
@@ -180,7 +187,7 @@ def gen_plan(rng, tier="quick", prop="C18"):
                 k = max(sorted(st["chunks"]), key=nb)
                 st["chunks"][k] = -1 if nb(k) <= 2 else -(-sizes[k] // 2)
         steps.append(st)
-        metas[slot] = {"kind": kind, "recipe": recipe, "backing": backing, "prop": prop}
+        metas[slot] = {"kind": kind, "recipe": recipe, "backing": backing, "prop": prop, "all": metas}
         if recipe["nd"] >= 2:
             known_shapes.append((recipe["nf"], recipe["nd"]))
 
@@ -286,7 +293,7 @@ def shape(plan):
         if op == "new":
             parts.append(f"new{st['slot']}:{st['kind']}:{st['backing']}:{D.describe(st['recipe'])}")
         elif op == "call":
-            parts.append(f"call{st['slot']}:{O.op_label(st['call'])}:{st['call'].get('via')}{':sim' if st.get('sim') else ''}")
+            parts.append(f"call{st['slot']}:{O.op_label(st['call'])}:{st['call'].get('via')}{':sim' if st.get('sim') else ''}{':like' + str(st['call'].get('other')) if st['call']['m'] == 'interp_like' else ''}{':asda' if st['call'].get('as_da') else ''}")
         elif op == "bad":
             parts.append(f"bad{st['slot']}:{st['bad']['k']}")
         elif op == "edit":
@@ -324,6 +331,12 @@ class ArgStore:
         if key not in self.objs:
             if kind == "array":
                 self.objs[key] = np.asarray(value, dtype=float)
+            elif kind.startswith("da1d:"):  # coordinate DataArray with its own index, no attributes
+                import xarray as xr
+
+                name = kind.split(":")[1]
+                vals = np.asarray(value, dtype=float)
+                self.objs[key] = xr.DataArray(vals, dims=(name,), coords={name: vals}, name=name)
             elif kind == "colview":  # a column view into a caller-owned (N, 2) points buffer
                 buf = np.zeros((len(value), 2))
                 buf[:, 0] = value
@@ -377,6 +390,7 @@ def make_native(recipe, fmt):
     r["dims"] = [["time", max(1, dict(recipe["dims"]).get("time", 2))], ["site", max(1, dict(recipe["dims"]).get("site", 2))]]
     r["nd"] = max(3, recipe.get("nd", 0) or 4)
     r["spec_last"] = True
+    r["dir_first"] = False
     r["dtype"] = "float64"
     ds = D.make_dataset(r)
     e = ds["efth"].values
@@ -477,10 +491,12 @@ def call_args(store, call):
         args["lons"] = store.get(kind, list(call["lons"]))
         args["lats"] = store.get("array" if call.get("as_array") else "list", list(call["lats"]))
     elif m == "interp":
+        kind = "da1d:freq" if call.get("as_da") else "array"
         if call.get("freq") is not None:
-            args["freq"] = store.get("array", list(call["freq"]))
+            args["freq"] = store.get(kind, list(call["freq"]))
+        kind = "da1d:dir" if call.get("as_da") else "array"
         if call.get("dir") is not None:
-            args["dir"] = store.get("array", list(call["dir"]))
+            args["dir"] = store.get(kind, list(call["dir"]))
     return args
 
 
@@ -603,7 +619,10 @@ def ref_handler(req):
         if kind == "call":
             obj = F.thaw(req["obj"])
             aux = F.thaw(req["aux"])
-            res = O.apply_op(obj, req["call"], aux=aux, args=_plain_args(req["call"]))
+            pargs = _plain_args(req["call"])
+            if req["call"]["m"] == "interp_like":
+                pargs["other"] = F.thaw(req["other"])
+            res = O.apply_op(obj, req["call"], aux=aux, args=pargs)
         elif kind == "bad":
             obj = F.thaw(req["obj"])
             aux = F.thaw(req["aux"])
@@ -631,7 +650,14 @@ def ref_handler(req):
 
 
 def _plain_args(call):
+    import xarray as xr
+
     args = {}
+    if call["m"] == "interp" and call.get("as_da"):
+        for name in ("freq", "dir"):
+            if call.get(name) is not None:
+                vals = np.asarray(call[name], dtype=float)
+                args[name] = xr.DataArray(vals, dims=(name,), coords={name: vals}, name=name)
     if call["m"] == "sel":
         if call.get("as_array"):
             args["lons"] = np.asarray(call["lons"], dtype=float)
@@ -751,6 +777,10 @@ def execute(arg):
                     call = st["call"]
                     if sl.kind == "native" or (call["m"] == "sel" and sl.kind != "ds"):
                         continue
+                    if call["m"] == "interp_like":
+                        if call["other"] not in slots or slots[call["other"]].kind not in ("ds", "da"):
+                            continue
+                        args = dict(args, other=slots[call["other"]].obj)
                     res = O.apply_op(sl.obj, call, aux=sl.aux, args=args)
                     if st.get("sim") and _is_lazy(res):
                         situation = "deferred"
@@ -826,6 +856,8 @@ def execute(arg):
                 if op in ("call", "bad", "reader", "reconstruct"):
                     req["obj"] = F.freeze(sl.obj)
                     req["aux"] = F.freeze(sl.aux) if sl.aux is not None else None
+                    if op == "call" and st["call"]["m"] == "interp_like":
+                        req["other"] = F.freeze(slots[st["call"]["other"]].obj)
                     if op == "reader":
                         req["obj"] = F.freeze(sl.obj)
                 rep = server.call(req)
